@@ -20,7 +20,7 @@ RULE = ("Fake python-libusb1 backend injected through sys.modules['usb1'] before
         "close, in any order; timeouts {None,0,0.0004,0.5,3} U floats; read sizes; backend short reads and short writes; a backend USBError of a drawn subclass injected at a drawn transfer index, and "
         "additionally enumerated at EVERY transfer index of a fixed sequence): claimInterface(interface number) on connect; every write goes to the OUT endpoint and every read to the IN endpoint with the "
         "data in order; a read never returns more than requested; timeout= is an int within 1 ms of 1000*t (of 1000*default for None); every USBError surfaces as UsbReadFailedError/UsbWriteFailedError; "
-        "after close() both calls raise those errors. (b) whole sessions through AdbDeviceUsb(serial=/port_path=) with 1-3 devices on the bus and the handle wired to the device simulator: results == model, "
+        "after close() both calls raise those errors, also when the backend raises a USBError inside close() itself. (b) whole sessions through AdbDeviceUsb(serial=/port_path=) with 1-3 devices on the bus and the handle wired to the device simulator: results == model, "
         "host packets == the in-memory run. Non-trivial: a sequence/session with >= 1 short transfer or an injected error. Distinct = case hash.")
 ASSUMPTIONS = ["fidelity of the hand-written fake (advf/fakeusb1.py) to python-libusb1's documented behaviour", "device simulator for sessions"]
 
@@ -47,7 +47,8 @@ def seq_cases(draw):
         else:
             steps.append((k,))
     return {"steps": steps, "default_timeout": draw(st.sampled_from([None, 2, 7.5])), "error_at": draw(st.one_of(st.none(), st.integers(0, 10))),
-            "error": draw(st.integers(0, len(ERRS) - 1)), "kernel_driver": draw(st.sampled_from([False, True, "notfound"]))}
+            "error": draw(st.integers(0, len(ERRS) - 1)), "kernel_driver": draw(st.sampled_from([False, True, "notfound"])),
+            "close_error": draw(st.sampled_from([None, None, "release", "close"]))}       # a USBError raised by the backend inside close()
 
 
 def check_seq(case):
@@ -75,7 +76,9 @@ def check_seq(case):
         return n
 
     dev.backend_read, dev.backend_write = backend_read, backend_write
-    info = {"classes": ["sequence"]}
+    dev.release_error = case.get("close_error") == "release"
+    dev.close_error = case.get("close_error") == "close"
+    info = {"classes": ["sequence"] + (["close-error:" + case["close_error"]] if case.get("close_error") else [])}
     setting = dev.settings[-1]
     tr = UT.UsbTransport(dev, setting, usb_info="fake", default_transport_timeout_s=case["default_timeout"])
     default = case["default_timeout"] if case["default_timeout"] is not None else UT.DEFAULT_TIMEOUT_S
